@@ -22,7 +22,7 @@ pub static DEF: PropDef = PropDef {
     real: &["filter parser, DefaultCompiler / every compiled closure, Filter::execute, FilterValue::execute", "regex-automata meta::Regex with its cache pool", "sliceslice / memchr searchers, LazyLock SIMD latch", "Scheme / AST Arc sharing", "real OS threads"],
     stub: &["thread scheduler (cooperative baton; pre-emption at node entries and callbacks only)", "SIMD anchor draw (supplied by the tape)", "user functions and list matcher (harness plug-ins)"],
     assumptions: &["code between two scheduling points is atomic in this engine; instruction-level interleavings and data races are covered only by the Miri tier (scalar path)", "harness callbacks are pure functions of their arguments"],
-    required_probes: &["c18.exec", "c18.recompile", "c18.value_exec", "c18.shared_ctx", "c18.regex_on_2_threads", "c18.t64", "c18.injected_panic_isolated", "c18.inside_overlap", "c18.parse", "c18.panic_burst", "c18.refused_parse"],
+    required_probes: &["c18.exec", "c18.recompile", "c18.value_exec", "c18.shared_ctx", "c18.regex_on_2_threads", "c18.t64", "c18.injected_panic_isolated", "c18.inside_overlap", "c18.parse", "c18.panic_burst", "c18.refused_parse", "c18.shared_parser"],
     extra: Some(extra),
 };
 
@@ -55,6 +55,11 @@ fn exec_value(f: &FilterValue, ctx: &ExecutionContext<'_>) -> Outcome {
 }
 
 struct Shared {
+    /// one parser object shared by every task (declared first: dropped before the scheme handle it borrows), with the
+    /// smallest nesting limit under which every text of the run parses sequentially, or one more
+    parser: wirefilter::FilterParser<'static>,
+    #[allow(dead_code)]
+    parser_scheme: Box<wirefilter::Scheme>,
     texts: Vec<String>,
     asts: Vec<FilterAst>,
     filters: Vec<Filter>,
@@ -82,7 +87,8 @@ enum Step {
     /// ... optionally after a *refused* parse on the same thread: the same text cut at the given byte offset (an
     /// unterminated literal, a dangling operator); whatever a refused parse leaves behind on the thread must not leak
     /// into the next one
-    Parse(usize, Option<usize>),
+    /// (third: through the run's one shared parser object instead of a parser of its own)
+    Parse(usize, Option<usize>, bool),
     /// n executions in a row that each unwind out of a user callback and are caught by the caller, followed by a
     /// normal execution: the thread must be as good as new
     PanicBurst(usize, usize),
@@ -181,20 +187,27 @@ fn task_body(task: usize, sh: Arc<Shared>, steps: Vec<Step>) {
                 let got = exec_filter(bf, &sh.ctxs[c]);
                 check("after-panic-burst", "boom filter", got, &sh.boom_baseline[c], task);
             }
-            Step::Parse(f, cut) => {
+            Step::Parse(f, cut, shared) => {
                 let ast = sh.asts[f].clone();
                 let scheme = ast.scheme().clone();
+                let own_parser = scheme.parser();
+                let parser: &wirefilter::FilterParser<'_> = if shared {
+                    kernel::count("c18.shared_parser");
+                    &sh.parser
+                } else {
+                    &own_parser
+                };
                 if let Some(mut k) = cut {
                     let text = &sh.texts[f];
                     while k > 0 && !text.is_char_boundary(k) {
                         k -= 1;
                     }
-                    let refused = catch_unwind(AssertUnwindSafe(|| scheme.parse(&text[..k]).is_err()));
+                    let refused = catch_unwind(AssertUnwindSafe(|| parser.parse(&text[..k]).is_err()));
                     if matches!(refused, Ok(true)) {
                         kernel::count("c18.refused_parse");
                     }
                 }
-                match catch_unwind(AssertUnwindSafe(|| scheme.parse(&sh.texts[f]).map_err(|e| e.to_string()))) {
+                match catch_unwind(AssertUnwindSafe(|| parser.parse(&sh.texts[f]).map_err(|e| e.to_string()))) {
                     Ok(Ok(again)) => {
                         kernel::count("c18.parse");
                         if again != ast {
@@ -351,7 +364,7 @@ fn run(ctx: &RunCtx) -> Result<(), Violation> {
                 2 => Step::Recompile(f, c),
                 3 => Step::CloneDrop(f),
                 4 => Step::Serialise(f),
-                5 => Step::Parse(f, chance(1, 2, "step.parse_after_refusal").then(|| choose(texts[f].len().max(1), "step.parse_cut"))),
+                5 => Step::Parse(f, chance(1, 2, "step.parse_after_refusal").then(|| choose(texts[f].len().max(1), "step.parse_cut")), chance(1, 2, "step.shared_parser")),
                 _ => {
                     if chance(1, 4, "step.burst") {
                         Step::PanicBurst(c, [1usize, 33, 40][choose(3, "step.burst_n")])
@@ -382,7 +395,25 @@ fn run(ctx: &RunCtx) -> Result<(), Violation> {
     if spec.functions.contains(&"boom") && texts.iter().any(|t| t.contains("boom(")) && chance(1, 3, "inject") {
         seams::arm_panic("fn.boom", 1 + choose(4, "inject.nth") as u32);
     }
+    // the shared parser: the smallest nesting limit under which every text parses on its own, or one more, or the default
+    let parser_scheme = Box::new(scheme.clone());
+    let scheme_ref: &'static wirefilter::Scheme = unsafe { &*(&*parser_scheme as *const wirefilter::Scheme) };
+    let mut settings = wirefilter::ParserSettings::default();
+    if !chance(1, 4, "parser.default_limit") {
+        let fits = (1u16..=16).find(|d| {
+            let mut st = wirefilter::ParserSettings::default();
+            st.max_nesting_depth = *d;
+            let p = wirefilter::FilterParser::with_settings(&scheme, st);
+            texts.iter().all(|t| p.parse(t).is_ok())
+        });
+        if let Some(d) = fits {
+            settings.max_nesting_depth = d + choose(2, "parser.slack") as u16;
+        }
+    }
+    let parser = wirefilter::FilterParser::with_settings(scheme_ref, settings);
     let sh = Arc::new(Shared {
+        parser,
+        parser_scheme,
         boom_filter,
         boom_baseline,
         texts: texts.clone(),
